@@ -90,6 +90,10 @@ pub struct C07CliPlan {
 	/// command-line order; `true` = passed relative to the cwd
 	pub jpaths: Vec<(String, bool)>,
 	pub env_paths: Vec<String>,
+	/// the file is named by `--tla-code-file` / `--tla-str-file` instead of by an import expression:
+	/// it is then looked up from the cwd and through the same search path
+	#[serde(default)]
+	pub via_tla_file: bool,
 }
 
 pub struct C07Cli;
@@ -169,6 +173,7 @@ impl Scenario for C07Cli {
 			cwd,
 			main_dir,
 			main_abs: rng.chance(1, 2),
+			via_tla_file: entry.kind != Kind::Bin && rng.chance(1, 4),
 			entry,
 			jpaths,
 			env_paths,
@@ -185,9 +190,23 @@ impl Scenario for C07Cli {
 		};
 		materialise(&root, &fs, &rendered);
 		let main_sim = format!("{}/main.jsonnet", plan.main_dir);
-		std::fs::write(format!("{root}{main_sim}"), snippet_for(&plan.entry)).expect("write main");
+		let main_text = if plan.via_tla_file {
+			// function(t) t.<projection>
+			let mut e = plan.entry.clone();
+			e.spelling = String::new();
+			let tail = snippet_for(&e);
+			let tail = tail.split_once("'')").map_or("", |x| x.1).to_owned();
+			format!("function(t) t{tail}")
+		} else {
+			snippet_for(&plan.entry)
+		};
+		std::fs::write(format!("{root}{main_sim}"), main_text).expect("write main");
 		// command line
 		let mut args: Vec<String> = Vec::new();
+		if plan.via_tla_file {
+			args.push(if plan.entry.kind == Kind::Code { "--tla-code-file" } else { "--tla-str-file" }.to_owned());
+			args.push(format!("t={}", plan.entry.spelling));
+		}
 		for (d, relative) in &plan.jpaths {
 			args.push("-J".to_owned());
 			args.push(if *relative { rel_from(&plan.cwd, d) } else { format!("{root}{d}") });
@@ -239,7 +258,9 @@ impl Scenario for C07Cli {
 			loads: BTreeMap::new(),
 			resolves: Vec::new(),
 		};
-		let mut want = m.eval_entry_from(&plan.main_dir, &plan.entry);
+		// a file named on the command line is looked up from the cwd, an import from the importing file
+		let base = if plan.via_tla_file { plan.cwd.clone() } else { plan.main_dir.clone() };
+		let mut want = m.eval_entry_from(&base, &plan.entry);
 		if let Ok(Value::Object(o)) = &want {
 			if let Some(Value::String(p)) = o.get("file") {
 				// whole-file manifestation is not modelled here; the generator never asks for it
@@ -247,8 +268,9 @@ impl Scenario for C07Cli {
 			}
 		}
 		rec.event(format!(
-			"cwd={} main={main_sim} abs={} -J{:?} JSONNET_PATH={:?} libs(model)={libs:?} `{}` -> {} ; model {:?}",
+			"cwd={} main={main_sim} tla_file={} abs={} -J{:?} JSONNET_PATH={:?} libs(model)={libs:?} `{}` -> {} ; model {:?}",
 			plan.cwd,
+			plan.via_tla_file,
 			plan.main_abs,
 			plan.jpaths,
 			plan.env_paths,
